@@ -150,23 +150,23 @@ PROPS = {
         "7 C12"),
     "C04": entry(
         "Flushed data survives reopen and reopen restores exactly the flushed state",
-        [ib("reopen", 500, 20000, blob=2, ops=50), ib("ingest", 200, 8000, blob=2, ops=50)],
-        "I-B: histories with reopen (drop + Config::open on the same directory, counters kept) at ~15% of all positions, also repeatedly, after trivial moves, clear, drop_range, ingestion, in key-value-separated trees; after each reopen the full state (levels, run order, table ids, contents incl. sequence numbers, global seqnos, recorded ranges) must equal the model's `reopen` of the state before, get_highest_persisted_seqno must not change, and the history continues with writes / flushes / compactions (fresh table ids must not collide); non-trivial = >= 1 compaction and >= 2 flushes",
+        [ib("reopen", 500, 20000, blob=2, ops=50), ib("ingest", 200, 8000, blob=2, ops=50), ia("manifest", 150, 4000)],
+        "I-B: histories with reopen (drop + Config::open on the same directory, counters kept) at ~15% of all positions, also repeatedly, after trivial moves, clear, drop_range, ingestion, in key-value-separated trees; after each reopen the full state (levels, run order, table ids, contents incl. sequence numbers, global seqnos, recorded ranges) must equal the model's `reopen` of the state before, get_highest_persisted_seqno must not change, and the history continues with writes / flushes / compactions (fresh table ids must not collide); non-trivial = >= 1 compaction and >= 2 flushes; I-A manifest: the version file of EVERY published version of generated trees (standard and key-value-separated, ingestion, drop_range, MoveDown of multi-run levels, reopen) is split into its sections and each section payload is (a) decoded by the model and compared with the structure the tree reports, (b) re-encoded by the model and compared BYTE FOR BYTE (tables section; blob / gc sections as maps since the writer iterates a HashMap), (c) mutated (truncation, count / id / checksum-type bytes, duplicated records, trailing bytes, stale `current`) and offered to the real recovery: accept / reject must agree with the model's decoder",
         TECH,
-        "c04_reopen_exact / c04_reopen_flushed_only / c04_reopen_keeps_structure / c04_continue_after_reopen / c04_reads_across_reopens: reopen keeps the version (tables, order, ids), drops exactly the memtables, leaves every read of flushed data unchanged, and C01 holds across any number of reopens.",
-        "the manifest byte codec is validated by correspondence (state equality after a real reopen), its Lean model is pending; blob file id allocation after reopen: finding F8 (fixed)",
-        "7 C04"),
+        "c04m_image_roundtrip (decodeImage (encodeImage v) = some v for every bounded version image: levels x runs x tables with ids, checksums, global seqnos; blob file list; gc statistics), c04m_*_roundtrip_prefix, c04m_*_order_irrelevant (HashMap iteration order does not matter), c04m_*_map_exact; c04_reopen_exact / c04_reopen_flushed_only / c04_reopen_keeps_structure / c04_continue_after_reopen / c04_reads_across_reopens: reopen keeps the version (tables, order, ids), drops exactly the memtables, leaves every read of flushed data unchanged, and C01 holds across any number of reopens.",
+        "the sfa container around the sections and the whole-file checksum in `current` are modelled by their specification (C10 covers `current`); blob file id allocation after reopen: finding F8 (fixed)",
+        "7 C04", modules=["C04", "C04m"]),
     "C07": entry(
         "Every published tree version is structurally sound and matches its manifest",
-        [ia("runs", 800, 20000), ib("core", 500, 20000, blob=2, ops=60), ib("all", 300, 10000, blob=2, ops=60)],
-        "I-A: optimize_runs and the Run lookup functions vs model + structural oracle on the real output; I-B: after EVERY op the real version is audited independently of the model (every table iterated: strictly sorted, recorded key range / item_count / tombstone counts / highest seqno = contents; runs ascending and disjoint; for tables in different runs sharing a key the one consulted first holds only newer seqnos; every named file exists) and the model evaluates SORT / META / RUN / ORD on the identical state; reopen decodes the manifest and the state must be identical",
+        [ia("runs", 800, 20000), ib("core", 500, 20000, blob=2, ops=60), ib("all", 300, 10000, blob=2, ops=60), ia("manifest", 150, 4000)],
+        "I-A: optimize_runs and the Run lookup functions vs model + structural oracle on the real output; I-B: after EVERY op the real version is audited independently of the model (every table iterated: strictly sorted, recorded key range / item_count / tombstone counts / highest seqno = contents; runs ascending and disjoint; for tables in different runs sharing a key the one consulted first holds only newer seqnos; every named file exists) and the model evaluates SORT / META / RUN / ORD on the identical state; reopen decodes the manifest and the state must be identical; I-A manifest: section payloads of every published version file decoded / re-encoded by the model (see C04)",
         TECH,
-        "c07_every_published_version_sound, c07_reachable_structurally_sound, c07_runs_disjoint_ascending, c07_read_order_newer, c07_key_versions_in_one_table, c07_recorded_range_exact, c07_optimize_*, c07_with_*_wf: every version of every history entry of every reachable state satisfies the four clauses.",
-        "c07_version_roundtrip_partial: the version-file codec has no Lean model yet (manifest round trip is validated by real reopen in I-B)",
-        "7 C07"),
+        "c07m_image_inj (different version images have different bytes), c07m_*_decode_sound (whatever decodes re-encodes to the bytes read), c07m_image_decode_iff, c07m_equiv_of_perm; c07_every_published_version_sound, c07_reachable_structurally_sound, c07_runs_disjoint_ascending, c07_read_order_newer, c07_key_versions_in_one_table, c07_recorded_range_exact, c07_optimize_*, c07_with_*_wf: every version of every history entry of every reachable state satisfies the four clauses.",
+        "the sfa container and the checksum in `current` are outside the manifest model (specification-level; C10)",
+        "7 C07", modules=["C07", "C04m"]),
     "C08": entry(
         "Key-value separation is invisible to the user",
-        [ib("all", 400, 15000, blob=1, ops=60), ib("reloc", 800, 30000, blob=1, ops=70), ib("snap", 300, 10000, blob=1, ops=60), ib("filter", 200, 8000, blob=1, ops=60)],
+        [ib("all", 400, 15000, blob=1, ops=60), ib("reloc", 1500, 40000, blob=1, ops=70), ib("snap", 300, 10000, blob=1, ops=60), ib("filter", 200, 8000, blob=1, ops=60), ib("ingest", 300, 10000, blob=1, ops=60)],
         "I-B on key-value-separated trees (threshold 0/1/8/12/1000, blob file target 1 B .. 1 KiB, staleness 0.3, age cutoff 1.0): the same configuration-free model and ordered-map oracle as for standard trees; every stored pointer of every table of the current version AND of every version a held snapshot resolves to is decoded and resolved against that version's blob files and must yield the bytes written for that key and version; `reloc` profile: few keys, several live versions, blob files made partly stale by drop_range, relocating major compactions; non-trivial = >= 1 compaction and >= 2 flushes",
         TECH,
         "c08_separation_invisible: for every op list (entries value / tombstone, no compaction filter) the run of a key-value-separated tree equals the run of a standard tree up to erasing the indirection tag — same accepted decisions, same point reads, same scans (c08_point_reads, c08_scans); c08_gc_stream_commutes.",
@@ -174,7 +174,7 @@ PROPS = {
         "7 C08"),
     "C09": entry(
         "Blob garbage statistics are exact and only unreferenced blob files are dropped",
-        [ib("all", 400, 15000, blob=1, ops=60), ib("reloc", 800, 30000, blob=1, ops=70), ib("drop", 300, 10000, blob=1, ops=60), ib("filter", 200, 8000, blob=1, ops=60)],
+        [ib("all", 400, 15000, blob=1, ops=60), ib("reloc", 1500, 40000, blob=1, ops=70), ib("drop", 300, 10000, blob=1, ops=60), ib("filter", 200, 8000, blob=1, ops=60)],
         "I-B on key-value-separated trees: after every op the garbage of every blob file of the current version is recomputed independently (scan of the blob file, minus the (file, offset) pairs any table points to) and compared with gc_stats (len, bytes, on_disk_bytes), stale_blob_bytes, blob_file_count; entries kept for departed files must equal that file's totals; reopen in the mix (statistics survive); non-trivial as C08",
         TECH,
         "c09_on_dropped_exact, c09_with_dropped_exact (incl. on-disk bytes; c09_with_dropped_legacy_partial records F2), c09_prune_exact, c09_stale_bytes_exact, c09_dead_iff_unreferenced, c09_relocation_exact, c09_with_merge_exact on the model of FragmentationMap / is_dead / prune_dead.",
@@ -182,7 +182,7 @@ PROPS = {
         "7 C09"),
     "C14": entry(
         "Bulk ingestion becomes visible atomically and overrides older data",
-        [ib("ingest", 500, 20000, blob=2, ops=60)],
+        [ib("ingest", 500, 20000, blob=2, ops=60), ib("reloc", 600, 20000, blob=1, ops=70)],
         "I-B: histories with ingestions of sorted batches (values and tombstones, overlapping existing runs, into empty and deep trees, with non-empty memtables, standard and key-value-separated), snapshots held across them, flush / compaction / reopen afterwards; state compared with the model after every op (global seqno of ingested tables, version seqno, internal flush), reads at held and new snapshots vs oracle",
         TECH,
         "c14_reads_after_ingest, c14_atomic, c14_invisible_to_earlier_snapshots, c14_later_write_wins, c14_memtable_data_stays.",
